@@ -61,6 +61,11 @@ type RangeVal struct {
 	elemSort string
 }
 
+// MapRef is a Go map created in the function under verification: a reference to a cell holding the map's current value.
+type MapRef struct {
+	cell *Cell
+}
+
 type BytesRef struct {
 	cell     *Cell
 	off, len Term
@@ -205,6 +210,7 @@ type loopCtx struct {
 	cellNames map[string]*Cell
 	body     map[*ssa.BasicBlock]bool
 	nback    int
+	entry    map[string]Term // state components when the loop was entered (entry_raw, entry_bal, ... in invariants)
 }
 
 type retRec struct {
@@ -578,6 +584,74 @@ func (fr *Frame) modifiedInLoop(body map[*ssa.BasicBlock]bool) (allocs map[*ssa.
 	return
 }
 
+// freeVarsWritten: indexes of the captured variables a closure may assign (a store through the captured pointer, or the pointer
+// handed on to a call or to an inner closure).
+func freeVarsWritten(fn *ssa.Function) map[int]bool {
+	out := map[int]bool{}
+	idx := map[*ssa.FreeVar]int{}
+	for i, fv := range fn.FreeVars {
+		idx[fv] = i
+	}
+	var root func(v ssa.Value) ssa.Value
+	root = func(v ssa.Value) ssa.Value {
+		switch x := v.(type) {
+		case *ssa.FieldAddr:
+			return root(x.X)
+		case *ssa.IndexAddr:
+			return root(x.X)
+		}
+		return v
+	}
+	mark := func(v ssa.Value) {
+		if f, ok := root(v).(*ssa.FreeVar); ok {
+			out[idx[f]] = true
+		}
+	}
+	for _, b := range fn.Blocks {
+		for _, ins := range b.Instrs {
+			switch x := ins.(type) {
+			case *ssa.Store:
+				mark(x.Addr)
+			case *ssa.MakeClosure:
+				for _, bd := range x.Bindings {
+					mark(bd)
+				}
+			case ssa.CallInstruction:
+				for _, a := range x.Common().Args {
+					mark(a)
+				}
+			}
+		}
+	}
+	return out
+}
+
+// callsFunctionValue: does the loop body call through a function value (parameter, captured variable, field) rather than a static callee?
+func (fr *Frame) callsFunctionValue(body map[*ssa.BasicBlock]bool) bool {
+	for b := range body {
+		for _, ins := range b.Instrs {
+			if ci, ok := ins.(ssa.CallInstruction); ok {
+				cc := ci.Common()
+				if cc.IsInvoke() {
+					continue
+				}
+				if _, isBuiltin := cc.Value.(*ssa.Builtin); isBuiltin {
+					continue
+				}
+				if cc.StaticCallee() == nil {
+					return true
+				}
+				for _, a := range cc.Args {
+					if _, isSig := a.Type().Underlying().(*types.Signature); isSig {
+						return true
+					}
+				}
+			}
+		}
+	}
+	return false
+}
+
 // enterLoop cuts the loop at its header: checks the invariant on entry, havocs, assumes the invariant.
 func (fr *Frame) enterLoop(h *ssa.BasicBlock, st *St, reach Term, phiVals map[*ssa.Phi]Val) (*St, Term) {
 	ex := fr.ex
@@ -602,6 +676,10 @@ func (fr *Frame) enterLoop(h *ssa.BasicBlock, st *St, reach Term, phiVals map[*s
 	lc.cellNames = map[string]*Cell{}
 	for k, v := range fr.cellNames {
 		lc.cellNames[k] = v
+	}
+	lc.entry = map[string]Term{}
+	for g, t := range st.glob {
+		lc.entry[g] = t
 	}
 	// 1. invariant holds on entry
 	envInit := fr.loopEnv(lc, st, phiVals)
@@ -630,7 +708,54 @@ func (fr *Frame) enterLoop(h *ssa.BasicBlock, st *St, reach Term, phiVals map[*s
 			}
 		}
 	}
-	// iterator positions and cells reachable only through captured pointers
+	// maps built by the code (MapRef cells): a loop may update them directly or through a closure; forget them all
+	// (a loop invariant must say what it needs about a map)
+	for c, v := range nst.cells {
+		if tv, ok := v.(Term); ok && strings.HasPrefix(tv.Sort, "Map_") {
+			nst.cells[c] = ex.fresh("h_"+c.name, tv.Sort)
+		}
+	}
+	// local cells captured by a closure that the loop body may call through a function value
+	if fr.callsFunctionValue(lc.body) {
+		seen := map[*FuncVal]bool{}
+		var walk func(fv *FuncVal)
+		walk = func(fv *FuncVal) {
+			if seen[fv] || fv.fn == nil {
+				return
+			}
+			seen[fv] = true
+			written := freeVarsWritten(fv.fn)
+			for k, b := range fv.bindings {
+				switch x := b.(type) {
+				case *FuncVal:
+					walk(x)
+				case *Ptr:
+					if x.cell == nil {
+						continue
+					}
+					cur, in := nst.cells[x.cell]
+					if !in {
+						continue
+					}
+					if inner, ok := cur.(*FuncVal); ok {
+						walk(inner)
+						continue
+					}
+					if written[k] {
+						if cv, ok := cur.(Term); ok {
+							nst.cells[x.cell] = ex.fresh("h_"+x.cell.name, cv.Sort)
+						}
+					}
+				}
+			}
+		}
+		for _, v := range fr.vals {
+			if fv, ok := v.(*FuncVal); ok {
+				walk(fv)
+			}
+		}
+	}
+	// iterator positions
 	for c, v := range nst.cells {
 		if strings.HasPrefix(c.name, "rangevisited") {
 			if tv, ok := v.(Term); ok {
@@ -781,6 +906,9 @@ func (fr *Frame) propsOf(c *Clause) []string {
 // loopEnv builds the environment for a loop invariant.
 func (fr *Frame) loopEnv(lc *loopCtx, st *St, phiVals map[*ssa.Phi]Val) *Env {
 	env := fr.baseEnv(st, lc.names, lc.cellNames)
+	for g, t := range lc.entry {
+		env.Vars["entry_"+g] = t
+	}
 	for phi, v := range phiVals {
 		t, ok := v.(Term)
 		if !ok {
@@ -828,9 +956,16 @@ func (fr *Frame) bindName(env *Env, k string, v Val, st *St) {
 		env.Vars[k+"_pfx"] = x.pfx
 	case *Ptr:
 		if x.cell != nil && len(x.path) == 0 {
-			if cv, ok := st.cells[x.cell].(Term); ok {
+			switch cv := st.cells[x.cell].(type) {
+			case Term:
 				env.Vars[k] = cv
+			case *MapRef, *IterVal, *BytesRef:
+				fr.bindName(env, k, cv, st)
 			}
+		}
+	case *MapRef:
+		if cv, ok := st.cells[x.cell].(Term); ok {
+			env.Vars[k] = cv
 		}
 	case *BytesRef:
 		if cv, ok := st.cells[x.cell].(Term); ok {
